@@ -1302,12 +1302,13 @@ impl Scenario for C08 {
         "One run = one real server connection (Server::run -> Connection) fed a scripted client byte \
          string (1-6 well-formed Serial/Reset queries of one version, optionally one final erroneous \
          unit, optionally EOF) under a tape-chosen schedule of: delivering the next 1..n bytes, \
-         notify(), source update+notify, yields (server task gets polled), spurious wake-ups and \
+         notify() (sometimes through a cloned sender), source update+notify, yields (server task gets polled), \
+         simulated time passing (1 ms .. 1 day), spurious wake-ups, the listener failing or ending, and \
          reading 1..n bytes of output from a small output buffer. One random run in four has a second \
          connection on the same server (own Reset Query answered first, then silent; or stalled and \
          never read), one in three an idle application-side NotifyReceiver, one in six a notify() \
          before the connection task was first polled. The sweep walks version x cut \
-         position 0..12 x query kind x extra yields x notify slot deterministically. After the schedule \
+         position 0..12 x query kind x extra yields x notify slot x (no time / 45 s pass after the cut) deterministically. After the schedule \
          all remaining bytes are delivered, output is drained and the run settles; then the output is \
          compared with a sequential reference model fed with the logged source answers. A run is \
          non-trivial if at least one response was checked. distinct = distinct hash of the event \
